@@ -106,7 +106,7 @@ theorem no_newline_of_domain (f : Field) (v : Val) (h : fieldInDomain f v = true
         · exact absurd h (by decide)
     · have hdec : dec ≤ 12 := by
         rcases hE with rfl | rfl <;> simpa using hnot
-      exact (fltE_written f dec fmt c hkind hE hdec hsep neg m e hwf hfits t ht).2
+      exact (fltE_written f dec fmt c hkind hE hdec hsep neg m e hwf hfits t ht).2.1
   | date fmts =>
     rw [hkind] at hty
     cases v with
